@@ -6,10 +6,16 @@ use super::*;
 
 pub const NFILES: usize = 3;
 pub const FILE_BYTES: usize = 512; // e.g. 8 slots of 64 bytes or 16 slots of 32 bytes
-pub static FILES: [parking_lot::RwLock<[u8; FILE_BYTES]>; NFILES] = [
-	parking_lot::const_rwlock([0u8; FILE_BYTES]),
-	parking_lot::const_rwlock([0u8; FILE_BYTES]),
-	parking_lot::const_rwlock([0u8; FILE_BYTES]),
+/// A file is kept as rows of 64 bytes: CBMC tracks arrays of up to 64 elements element by element (field
+/// sensitivity); a flat 512-byte array is all-or-nothing — after the first symbolic byte is written no byte of it is a
+/// constant for symbolic execution any more, and every marker / next pointer read back makes chain walks unwind to
+/// the bound (probed). Accesses never straddle a row (entry sizes 32 / 64, aligned).
+pub const ROW: usize = 64;
+pub const ROWS: usize = FILE_BYTES / ROW;
+pub static FILES: [parking_lot::RwLock<[[u8; ROW]; ROWS]>; NFILES] = [
+	parking_lot::const_rwlock([[0u8; ROW]; ROWS]),
+	parking_lot::const_rwlock([[0u8; ROW]; ROWS]),
+	parking_lot::const_rwlock([[0u8; ROW]; ROWS]),
 ];
 /// Number of write_at calls (all files), for "nothing was written" obligations.
 pub static mut WRITES: usize = 0;
@@ -49,14 +55,15 @@ pub fn stub_read_at(f: &TableFile, buf: &mut [u8], offset: u64) -> Result<()> {
 	let n = buf.len();
 	assert!(offset + n <= FILE_BYTES, "read beyond the mapped file");
 	let mut k = 0;
-	while k < n { buf[k] = g[offset + k]; k += 1; }
+	while k < n { buf[k] = g[(offset + k) / ROW][(offset + k) % ROW]; k += 1; }
 	Ok(())
 }
 
 pub fn stub_slice_at(f: &TableFile, offset: u64, len: usize) -> MappedBytesGuard<'static> {
 	let offset = offset as usize;
 	assert!(offset + len <= FILE_BYTES, "slice beyond the mapped file");
-	parking_lot::RwLockReadGuard::map(FILES[fno(f)].read(), |m| &m[offset..offset + len])
+	assert!(offset % ROW + len <= ROW, "harness bound: a slice stays inside one 64-byte row");
+	parking_lot::RwLockReadGuard::map(FILES[fno(f)].read(), |m| &m[offset / ROW][offset % ROW..offset % ROW + len])
 }
 
 pub fn stub_write_at(f: &TableFile, buf: &[u8], offset: u64) -> Result<()> {
@@ -65,7 +72,7 @@ pub fn stub_write_at(f: &TableFile, buf: &[u8], offset: u64) -> Result<()> {
 	assert!(offset + n <= FILE_BYTES, "write beyond the mapped file");
 	let mut g = FILES[fno(f)].write();
 	let mut k = 0;
-	while k < n { g[offset + k] = buf[k]; k += 1; }
+	while k < n { g[(offset + k) / ROW][(offset + k) % ROW] = buf[k]; k += 1; }
 	unsafe { WRITES += 1; }
 	event(1, fno(f) as u8);
 	Ok(())
@@ -88,7 +95,7 @@ pub fn disk_put(f: &TableFile, offset: usize, data: &[u8]) {
 	{
 		let mut g = FILES[fno(f)].write();
 		let mut k = 0;
-		while k < data.len() { g[offset + k] = data[k]; k += 1; }
+		while k < data.len() { g[(offset + k) / ROW][(offset + k) % ROW] = data[k]; k += 1; }
 	}
 	#[cfg(verif_native)]
 	{
@@ -99,7 +106,7 @@ pub fn disk_put(f: &TableFile, offset: usize, data: &[u8]) {
 pub fn disk_get(f: &TableFile, offset: usize) -> u8 {
 	#[cfg(not(verif_native))]
 	{
-		FILES[fno(f)].read()[offset]
+		FILES[fno(f)].read()[offset / ROW][offset % ROW]
 	}
 	#[cfg(verif_native)]
 	{
